@@ -118,18 +118,21 @@ GLM_FUNC_QUALIFIER glm_vec4 glm_vec4_sign(glm_vec4 x)
 
 GLM_FUNC_QUALIFIER glm_vec4 glm_vec4_round(glm_vec4 x)
 {
+	// Nearest integer, halfway cases away from zero like the scalar round:
+	// truncate(x + copysign(0.5 - ulp, x)). The largest float below 0.5 is used so that
+	// values just under a half (0.49999997f) are not carried over by the addition.
+	glm_vec4 const sgn0 = _mm_castsi128_ps(_mm_set1_epi32(int(0x80000000)));
+	glm_vec4 const and0 = _mm_and_ps(sgn0, x);
+	glm_vec4 const or0 = _mm_or_ps(and0, _mm_set_ps1(0.49999997f));
+	glm_vec4 const add0 = glm_vec4_add(x, or0);
 #	if GLM_ARCH & GLM_ARCH_SSE41_BIT
-		return _mm_round_ps(x, _MM_FROUND_TO_NEAREST_INT);
+		return _mm_round_ps(add0, _MM_FROUND_TO_ZERO);
 #	else
-		glm_vec4 const sgn0 = _mm_castsi128_ps(_mm_set1_epi32(int(0x80000000)));
-		glm_vec4 const and0 = _mm_and_ps(sgn0, x);
-		glm_vec4 const or0 = _mm_or_ps(and0, _mm_set_ps1(8388608.0f));
-		glm_vec4 const add0 = glm_vec4_add(x, or0);
-		glm_vec4 const sub0 = _mm_or_ps(glm_vec4_sub(add0, or0), and0);
-		// From 2^23 on every float is integral already and x + 2^23 is no longer exact:
-		// odd values would come back as their even neighbour. Those lanes (and NaN) return x.
-		glm_vec4 const big0 = _mm_cmpnlt_ps(_mm_andnot_ps(sgn0, x), _mm_set_ps1(8388608.0f));
-		return _mm_or_ps(_mm_and_ps(big0, x), _mm_andnot_ps(big0, sub0));
+		// Truncation through the integer conversion. From 2^23 on every float is integral
+		// already (and the conversion would overflow): those lanes (and NaN) keep the sum, which is x.
+		glm_vec4 const trn0 = _mm_or_ps(_mm_cvtepi32_ps(_mm_cvttps_epi32(add0)), and0);
+		glm_vec4 const big0 = _mm_cmpnlt_ps(_mm_andnot_ps(sgn0, add0), _mm_set_ps1(8388608.0f));
+		return _mm_or_ps(_mm_and_ps(big0, add0), _mm_andnot_ps(big0, trn0));
 #	endif
 }
 
